@@ -19,6 +19,12 @@ CHECKS = {
             'decision table of segment type x section type x flags x size x file/address relation (sampled in quick, complete in thorough) plus random geometry.',
             'Trusted: writer vf/enc/elf.py, zlib as reference inflater, my transcription of the binutils 2.40 macro (vf/ref/insegment.py, refereed against readelf -lW).',
             'DESIGN.md 4/C02'),
+    'C03': ('Hypothesis-generated symbol/hash-table models with a collision-built name pool; round-trip against the model + complete/sound lookup oracle',
+            'Exploration: every symbol field of generated SYMTAB/DYNSYM/LDYNSYM tables (with SYMTAB_SHNDX and SUNW_syminfo companions), the exact '
+            'name->symbols map, and SysV/GNU hash lookups and counts over tables whose names collide in hash value, in hash-up-to-bit-0 and in bucket, '
+            'for present, near-miss and absent queries in all four class/order cells.',
+            'Trusted: writer vf/enc/elf.py incl. its own SysV/GNU hash functions and table builders; Hypothesis.',
+            'DESIGN.md 4/C03'),
     'C16': ('exhaustive enumeration of short encodings + Hypothesis random encodings against an independent arithmetic decoder',
             'Exploration: every LEB128 prefix up to 2 (quick) / 3 (thorough) bytes and (thorough) all 2^24 24-bit values are enumerated '
             'completely; longer encodings, fixed-width integers, strings, blocks and initial lengths are covered by boundary sweeps and '
